@@ -1028,8 +1028,14 @@ def _run(ctx, bindirs, ok, problems, root):
         "serde_json / serde_yaml / json5 are external: their agreement on the generated documents is observed, not proved",
         "leaf identities and literal pieces fed to the Coq model are read back from the implementation's dump of the first run",
         "numeric literal types (Signed/Unsigned) are normalised across formats (json5 yields signed integers), DESIGN §10",
-        "units with plural groups, foreign keys or errors other than duplicate key / explicit default / subkey mismatch are outside "
-        "the Coq model and are covered by the dump comparison only",
+        "errors are compared by variant AND full text (every locale, key path, foreign key and file they name; only line/column numbers "
+        "are stripped; across formats the front-end's wrapper and serde_yaml's document-path prefix are removed). This is meaningful because "
+        "every generated project carries at most ONE logical fault (possibly involving several keys: reference cycles, several references "
+        "to one missing key or to one subkeys group, the same in several locales / namespaces / subkeys); two independent faults in two "
+        "different values of one file are excluded by construction - serde reports whichever member it meets first",
+        "units with plural groups, foreign keys into another namespace, with arguments or to explicit defaults, and errors other than duplicate "
+        "key / explicit default / subkey mismatch / recursive, missing or invalid foreign key are outside the Coq model and are covered by the "
+        "dump comparison only",
         "the code generator is the macro crate's source compiled into the harness by #[path] (same text, features declared alike)"])
 
 
